@@ -147,7 +147,8 @@ fn echo_handler(dict: Arc<Dictionary>, seen: Arc<Mutex<Vec<String>>>) -> impl Fn
         let seen = seen.clone();
         Box::pin(async move {
             if req.get_hop_by_hop_id() == PANIC_HBH {
-                panic!("scripted handler panic");
+                // (a formatted message: the payload of the panic is a `String`, as it is for `unwrap()` / `expect()` failures)
+                panic!("scripted handler panic for request {:#x}", req.get_hop_by_hop_id());
             }
             if req.get_hop_by_hop_id() == FAIL_HBH {
                 return Err(diameter::Error::ServerError("scripted handler failure".into()));
@@ -312,6 +313,23 @@ pub async fn listener_scenario(pki: Arc<Pki>, dict: Arc<Dictionary>, spec: Vec<S
                                     let _ = exchange(&mut p, &dict, 0xbad0_0000 + k as u32, 1, "faulty-ok", deadline).await;
                                     let mut f = frame(&request(&dict, 0xbad0_0001, 2, "faulty-bad"));
                                     f[5] = 0x7f; // unknown command code
+                                    let _ = p.write_all(&f).await;
+                                    keep.push(p);
+                                }
+                                "deepnest" => {
+                                    // a frame well inside the size limit that nests grouped AVPs tens of thousands deep
+                                    // (Failed-AVP in Failed-AVP ...): refused, never walked recursively to the bottom
+                                    let depth = 60000usize;
+                                    let total = 20 + 8 * depth;
+                                    let mut f = Vec::with_capacity(total);
+                                    f.push(1);
+                                    f.extend(&(total as u32).to_be_bytes()[1..]);
+                                    f.extend([0x80, 0, 1, 16, 0, 0, 0, 4, 0, 0, 0, 1, 0, 0, 0, 2]);
+                                    for i in 0..depth {
+                                        f.extend(279u32.to_be_bytes());
+                                        f.push(0x40);
+                                        f.extend(&((8 * (depth - i)) as u32).to_be_bytes()[1..]);
+                                    }
                                     let _ = p.write_all(&f).await;
                                     keep.push(p);
                                 }
